@@ -31,6 +31,8 @@ TRANSPORTS = [("http_proto", False), ("http_json", True), ("grpc", True),
 HTTP_REJECTS = ["s500", "s503", "s400", "s429", "s404", "s301"]
 GRPC_REJECTS = ["g14", "g8", "s503", "h14", "g13", "s502", "h8"]
 UNIT = 8192
+BIG_UNIT = 160 * 1024
+PADS = ["rep", "rnd"]
 
 
 def concretise(decs, proto, rnd):
@@ -49,7 +51,7 @@ def subsets_with(sigs, rnd):
     return [s for s in SIGS if s in sigs or s in extra]
 
 
-def build_scenario(n, lines_by_sig, proto, gzip, rnd, unit=UNIT):
+def build_scenario(n, lines_by_sig, proto, gzip, rnd, unit=UNIT, pad="rep"):
     """lines_by_sig: {signal: REPLAY line}; events of the signals are interleaved round-robin."""
     limit = None
     streams = {}
@@ -82,7 +84,7 @@ def build_scenario(n, lines_by_sig, proto, gzip, rnd, unit=UNIT):
     sc = {
         "sc": n, "proto": proto, "gzip": gzip, "signals": subsets_with(list(lines_by_sig), rnd),
         "flush_after": flush_after,
-        "limit": limit, "unit": unit, "events": events,
+        "limit": limit, "unit": unit, "pad": pad, "events": events,
         "scripts": scripts,
         "predict": {s: [{"ids": r["ids"], "dec": r["dec"]} for r in ln["reqs"]]
                     for s, ln in lines_by_sig.items()
@@ -103,14 +105,16 @@ def make_scenarios(ctx, lines):
     rnd.shuffle(faulty)
     n_single = 150 if ctx.quick else 3500
     n_multi = 40 if ctx.quick else 800
-    n_real = 8 if ctx.quick else 100
+    n_real = 12 if ctx.quick else 120
+    n_big = 12 if ctx.quick else 120
     n_indep = 4 if ctx.quick else 30
     chosen = clean + faulty[:max(0, n_single - len(clean))]
     out = []
     for i, ln in enumerate(chosen):
         proto, gzip = TRANSPORTS[i % len(TRANSPORTS)]
         sig = SIGS[(i // len(TRANSPORTS)) % 3]
-        out.append(build_scenario(len(out), {sig: ln}, proto, gzip, rnd))
+        # payload content alternates per block of transports: repeated / pseudo-random text
+        out.append(build_scenario(len(out), {sig: ln}, proto, gzip, rnd, pad=PADS[(i // len(TRANSPORTS)) % 2]))
     # several signals at once, each with its own script
     by_limit = {}
     for ln in lines:
@@ -120,18 +124,26 @@ def make_scenarios(ctx, lines):
         pool = by_limit[rnd.choice(sorted(by_limit))]
         k = 2 + (i % 2)
         sigs = rnd.sample(SIGS, k)
-        out.append(build_scenario(len(out), {s: rnd.choice(pool) for s in sigs}, proto, gzip, rnd))
+        out.append(build_scenario(len(out), {s: rnd.choice(pool) for s in sigs}, proto, gzip, rnd,
+                                  pad=PADS[(i // len(TRANSPORTS)) % 2]))
     # the emitter's real 1 MiB limit: no size override, payloads of 1 MiB / limit per unit
     multi_req = [ln for ln in lines if len({tuple(r["ids"]) for r in ln["reqs"]}) >= 2 and ln["limit"] >= 2] or lines
     for i in range(n_real):
         proto, gzip = TRANSPORTS[i % len(TRANSPORTS)]
-        out.append(build_scenario(len(out), {SIGS[i % 3]: rnd.choice(multi_req)}, proto, gzip, rnd, unit=0))
+        out.append(build_scenario(len(out), {SIGS[i % 3]: rnd.choice(multi_req)}, proto, gzip, rnd, unit=0,
+                                  pad=PADS[(i // len(TRANSPORTS)) % 2]))
+    # events of a few hundred KiB of hardly compressible text (one chunk compresses to far more
+    # than a deflate buffer), every transport with and without gzip
+    for i in range(n_big):
+        proto, gzip = TRANSPORTS[i % len(TRANSPORTS)]
+        out.append(build_scenario(len(out), {SIGS[(i // 2) % 3]: rnd.choice(lines)}, proto, gzip, rnd,
+                                  unit=BIG_UNIT, pad="rnd"))
     # one signal's endpoint is down for a long time; the others must be delivered meanwhile
     for i in range(n_indep):
         proto, gzip = TRANSPORTS[i % len(TRANSPORTS)]
         down = SIGS[i % 3]
         others = [s for s in SIGS if s != down][: 1 + (i % 2)]
-        ls = {down: dict(rnd.choice(clean), decs=["reject"] * 6, reqs=[])}
+        ls = {down: dict(rnd.choice(clean), decs=["reject"] * 8, reqs=[])}
         for s in others:
             ls[s] = dict(rnd.choice(by_limit[ls[down]["limit"]]), decs=[], reqs=[])
         out.append(build_scenario(len(out), ls, proto, gzip, rnd))
@@ -212,26 +224,64 @@ def run(ctx):
         scenarios = [dict(rc["scenario"], sc=0)]
     else:
         scenarios = make_scenarios(ctx, lines)
-    sc_path = os.path.join(ctx.out, "scenarios.ndjson")
-    with open(sc_path, "w") as f:
-        for sc in scenarios:
-            f.write(json.dumps(sc) + "\n")
     bindir = ctx.cargo_build("vh_otlp", bins=["c12_export"])
-    trace = os.path.join(ctx.out, "trace.ndjson")
-    rep_path = os.path.join(ctx.out, "report.json")
-    ctx.run_harness(os.path.join(bindir, "c12_export"), [sc_path, trace, rep_path, 32], timeout=2400)
-    rep = json.load(open(rep_path))
+
+    def run_pass(scens, tag, threads):
+        sc_path = os.path.join(ctx.out, "scenarios%s.ndjson" % tag)
+        with open(sc_path, "w") as f:
+            for sc in scens:
+                f.write(json.dumps(sc) + "\n")
+        tr = os.path.join(ctx.out, "trace%s.ndjson" % tag)
+        rp = os.path.join(ctx.out, "report%s.json" % tag)
+        ctx.run_harness(os.path.join(bindir, "c12_export"), [sc_path, tr, rp, threads], timeout=2400)
+        return split_trace(tr), json.load(open(rp))["summaries"]
+
+    all_scenarios = scenarios
+    segs, sums = run_pass(all_scenarios, "", 32)
+    summ = {sc["sc"]: sm for sc, sm in zip(all_scenarios, sums)}
+    # Timing guard.  The request timeout is shortened to about a second; when the machine is so
+    # loaded that the client times out on requests the collector did not stall (more client
+    # timeouts than scripted stalls, or requests whose connection the client had already closed
+    # when the collector got to them), the collector's log no longer shows the client's requests
+    # in order and the retry budget can run out: such a run says nothing about the property.
+    # It is run again with little parallelism; if it is slow again it is left undecided.
+    def slow(sm):
+        return sm["client_timeouts"] > sm["stalls"] or sm["abandoned"] > 0
+    again = [sc for sc in all_scenarios if slow(summ[sc["sc"]])]
+    ctx.cov["rerun_for_timing"] = len(again)
+    if again:
+        segs2, sums2 = run_pass(again, "-again", 4)
+        for sc, sm in zip(again, sums2):
+            segs[sc["sc"]] = segs2.get(sc["sc"], [])
+            summ[sc["sc"]] = sm
+    undecided = [sc["sc"] for sc in all_scenarios if slow(summ[sc["sc"]])]
+    ctx.cov["undecided_for_timing"] = len(undecided)
+    if undecided:
+        vlib.log("[c12] %d scenario(s) left undecided: the machine was too slow for the request timeout" % len(undecided))
+    if len(undecided) > max(3, len(all_scenarios) // 50):
+        raise vlib.ToolError("the machine is too loaded for the shortened request timeout: %d of %d scenarios "
+                             "saw client timeouts the collector did not script (set VH_REQUEST_TIMEOUT_MS higher)"
+                             % (len(undecided), len(all_scenarios)))
+    scenarios = [sc for sc in all_scenarios if sc["sc"] not in undecided]
+    by_id = {sc["sc"]: sc for sc in all_scenarios}
+    rep = {"summaries": [summ[sc["sc"]] for sc in scenarios]}
+    trace = os.path.join(ctx.out, "trace-decided.ndjson")
+    nev = 0
+    with open(trace, "w") as f:
+        for sc in scenarios:
+            for e in segs.get(sc["sc"], []):
+                f.write(json.dumps(e) + "\n")
+                nev += 1
 
     tv = ctx.validate_trace("OtlpTrace", "OtlpTrace.cfg", trace, timeout=1200, label="tv-trace")
     verdicts = verdicts_of(tv)
-    segs = split_trace(trace)
     ctx.cov["traces_validated_against_impl"] += len(scenarios)
-    ctx.cov["trace_events"] = rep["trace_events"]
+    ctx.cov["trace_events"] = nev
 
     # what the real executions exercised (vacuity guards)
     st = {"multi_request_batches": 0, "clean_flushes": 0, "faulty": 0, "real_limit_runs": 0,
           "max_request_bytes": 0, "flush_failed": 0, "client_side_failures": 0, "drift": 0,
-          "decisions": {}, "resends": 0, "reconnects": 0}
+          "decisions": {}, "resends": 0, "reconnects": 0, "large_gzip_requests": 0, "random_payload_runs": 0}
     for sc, sm in zip(scenarios, rep["summaries"]):
         seg = segs.get(sc["sc"], [])
         reqs = [e for e in seg if e["ev"] == "Req"]
@@ -251,6 +301,10 @@ def run(ctx):
         st["reconnects"] += max(0, sum(1 for e in seg if e["ev"] == "Connect") - len({e["ep"] for e in reqs}))
         if sc["unit"] == 0:
             st["real_limit_runs"] += 1
+        if sc.get("pad") == "rnd":
+            st["random_payload_runs"] += 1
+        # gzip bodies that stay large on the wire (hardly compressible payload)
+        st["large_gzip_requests"] += sum(1 for e in reqs if e["ack"] and e.get("gz") and e.get("bytes", 0) > 64 * 1024)
         st["max_request_bytes"] = max(st["max_request_bytes"], sm["max_request_bytes"])
         st["flush_failed"] += 0 if sm["flush"] else 1
         st["client_side_failures"] += sm["clientfails"]
@@ -312,7 +366,7 @@ def run(ctx):
         by_sc.setdefault(v["sc"], []).append(v["clause"])
     ctx.cov["rejected_traces"] = len(by_sc)
     for scn, clauses in sorted(by_sc.items()):
-        sc = scenarios[scn]
+        sc = by_id[scn]
         raws = sorted({e["raw"] for e in segs.get(scn, []) if e["ev"] == "Req"})
         sig = "C12 %s proto=%s decisions=%s" % (",".join(sorted(set(clauses))), sc["proto"], ",".join(raws))
         ctx.violation("C12 trace rejected by OtlpTrace.tla: %s (scenario %d, %s%s, signals %s, scripts %s)" % (
@@ -321,7 +375,8 @@ def run(ctx):
 
     # vacuity guards (only meaningful when every trace was accepted)
     if rc is None and not ctx.violations:
-        for k in ("multi_request_batches", "clean_flushes", "faulty", "real_limit_runs", "resends", "reconnects"):
+        for k in ("multi_request_batches", "clean_flushes", "faulty", "real_limit_runs", "resends", "reconnects",
+                  "large_gzip_requests", "random_payload_runs"):
             if not st[k]:
                 raise vlib.ToolError("vacuity: no real execution with %s" % k)
         if st["max_request_bytes"] < 1024 * 1024:
